@@ -234,7 +234,9 @@ def native_playback(u, test_text):
     clear_playback()
     mod = u["file"]
     open(os.path.join(d, mod + ".rs"), "w").write(test_text + "\n")
-    name = re.search(r"fn (kani_concrete_playback_\w+)", test_text).group(1)
+    names = re.findall(r"fn (kani_concrete_playback_\w+)", test_text)
+    # all generated tests of this harness share the prefix kani_concrete_playback_<harness fn>_
+    name = os.path.commonprefix(names) if len(names) > 1 else names[0]
     env = K.env()
     env["CARGO_TARGET_DIR"] = os.path.join(BUILD, "kani-playback")
     cmd = ["cargo", "kani", "playback", "-Z", "concrete-playback", "-Z", "function-contracts", "-Z", "stubbing",
@@ -248,9 +250,9 @@ def native_playback(u, test_text):
         out = "[runner] native playback timed out"
     finally:
         clear_playback()
-    if re.search(r"test .*%s \.\.\. FAILED" % name, out):
+    if re.search(r"test .*%s\w* \.\.\. FAILED" % name, out):
         return "reproduced", out
-    if re.search(r"test .*%s \.\.\. ok" % name, out):
+    if re.search(r"test .*%s\w* \.\.\. ok" % name, out):
         return "not-reproduced", out
     return "unavailable", out
 
